@@ -39,7 +39,7 @@ def _case(draw):
         return dict(kind="mz", phi=draw(S.angle), phase_entry=draw(st.sampled_from(["state", "env", "ce"])),
                     second_input=draw(st.booleans()), measure_entry=draw(st.sampled_from(["state", "ce"])))
     c = draw(S.program_case(["bs", "bs", "phase"], max_steps=6, world_kwargs=dict(min_envs=2, max_envs=3, need_ce=True, fdims=(2, 3), max_customs=1,
-                                                                                 max_joint=300, classes=["basis", "product", "pure", "mixed", "lowphoton", "lowphoton"])))
+                                                                                 max_joint=300, classes=["basis", "product", "pure", "mixed", "lowphoton", "lowphoton", "nearlypure"])))
     c["kind"] = "mesh"
     return c
 
